@@ -66,11 +66,16 @@ IsErr(r) == r.t \in {"error", "panic"}
 FirstErr(rs) == LET E == {i \in DOMAIN rs : IsErr(rs[i])} IN IF E = {} THEN 0 ELSE CHOOSE i \in E : \A j \in E : i <= j
 
 (* expected outcome of a script issuing the commands whose direct replies are rs *)
-PcallReplyOk(rs, got) == got = Conv(rs[Len(rs)])
+(* an unknown command name is refused by both paths, with different words ("unknown command" / "Unknown   *)
+(* Redis command ... called from Lua"): any error of the class ERR is accepted for it                      *)
+UnknownPrefix == <<69, 82, 82, 32, 117, 110, 107, 110, 111, 119, 110, 32, 99, 111, 109, 109, 97, 110, 100>>   \* "ERR unknown command"
+IsUnknownCmd(r) == r.t = "error" /\ Len(r.b) >= Len(UnknownPrefix) /\ SubSeq(r.b, 1, Len(UnknownPrefix)) = UnknownPrefix
+ErrClassERR(r) == r.t = "error" /\ Len(r.b) >= 3 /\ SubSeq(r.b, 1, 3) = <<69, 82, 82>>
+PcallReplyOk(rs, got) == IF IsUnknownCmd(rs[Len(rs)]) THEN ErrClassERR(got) ELSE got = Conv(rs[Len(rs)])
 CallReplyOk(rs, got) ==
   LET e == FirstErr(rs) IN
   IF e = 0 THEN got = Conv(rs[Len(rs)])
-  ELSE got.t = "error" /\ Contains(got.b, rs[e].b)
+  ELSE got.t = "error" /\ (Contains(got.b, rs[e].b) \/ IsUnknownCmd(rs[e]))
 
 ---------------------------------------------------------------------------
 (* model-checked facts about Conv over bounded reply trees (MCEntryPaths) *)
